@@ -1,4 +1,5 @@
 import JSight.RegexQuote
+import JSight.EnumEvents
 /-!
 # C18 — Named regex types behave like their inline forms (token extraction and hand-over)
 
@@ -7,8 +8,15 @@ import JSight.RegexQuote
 * `C18_goquote_roundtrip`: `AddType` hands the pattern to the schema loader as Go `%q` text; decoding
   that text with the library's own `Unquote` gives the pattern back (printable ASCII), so `@T` and an
   inline `{regex: P}` give the *same* pattern string to the same engine.
-Engine (`regexp`), example generator (`reggen`) and the enum-rule half are checked against the code
-(harness `c18-named`, `enum-diff`).
+* Enum rules (model `EnumScan` of `rules/enum/scanner.go`, tied by `enum-diff`): for every text
+  `ws [ ws item ws , … ] ws` whose items are scalar tokens of the grammar (strings with escapes, numbers without
+  exponent, true / false / null) and any layout incl. line breaks —
+  `C18_enum_values`: the literal events, in order, span exactly the item tokens (`Values` lists the literals in
+  source order); `C18_enum_events`: when the (decoded text, kind) keys are pairwise distinct the scan succeeds with
+  the event list the grammar predicts; `C18_enum_duplicate`: the first item whose key repeats an earlier one is
+  rejected with error 810 at its first byte. Comments inside the list are not covered by these theorems.
+Engine (`regexp`), example generator (`reggen`) and the hand-over of the values to the enum constraint are checked
+against the code (harness `c18-named`, `enum-diff`).
 -/
 namespace Props.C18
 
@@ -18,5 +26,26 @@ theorem C18_regex_extract (P rest : List UInt8) (hne : P ≠ []) (h : RegexT.end
 
 theorem C18_goquote_roundtrip (s : List UInt8) (hp : ∀ c ∈ s, GoQuote.printable c = true) :
     Unquote.unquote (GoQuote.q s) = s := GoQuote.C18_goquote_roundtrip s hp
+
+/-! ### enum rules -/
+open EnumScan in
+theorem C18_enum_events (pre ws0 post : List UInt8) (items : List Item)
+    (hpre : IsWsB pre) (hws0 : IsWsB ws0) (hpost : IsWsB post) (hv : GValidItems items)
+    (hnd : (items.map itemKey).Nodup) :
+    scanAll (renderEnum pre ws0 items post) = .ok (enumEvsOf pre ws0 items post) :=
+  enum_events pre ws0 post items hpre hws0 hpost hv hnd
+
+open EnumScan in
+theorem C18_enum_values (pre ws0 post : List UInt8) (items : List Item) (hv : GValidItems items) :
+    valuesOf (renderEnum pre ws0 items post) (enumEvsOf pre ws0 items post) = items.map (·.2.1) :=
+  enum_values pre ws0 post items hv.valid
+
+open EnumScan in
+theorem C18_enum_duplicate (pre ws0 post : List UInt8) (its1 : List Item) (dup : Item) (its2 : List Item)
+    (hpre : IsWsB pre) (hws0 : IsWsB ws0) (hv : GValidItems (its1 ++ dup :: its2))
+    (hnd : (its1.map itemKey).Nodup) (hdup : itemKey dup ∈ its1.map itemKey) :
+    scanAll (renderEnum pre ws0 (its1 ++ dup :: its2) post)
+      = .error (.duplicate (pre.length + 1 + ws0.length + (renderInit its1).length + dup.1.length)) :=
+  enum_duplicate pre ws0 post its1 dup its2 hpre hws0 hv hnd hdup
 
 end Props.C18
